@@ -61,6 +61,7 @@ func envWriteFile(path string, perm uint32, mtime int64, data string) {
 	envAdd(path, vNode{kind: vFile, perm: perm & 0777, mtime: mtime, data: data})
 }
 func envSymlink(path, target string, mtime int64) {
+	verif.Assume(target != "") // symlink(2) refuses an empty target
 	envAdd(path, vNode{kind: vLink, perm: 0777, mtime: mtime, target: target})
 }
 func envMkfifo(path string) { envAdd(path, vNode{kind: vFifo, perm: 0644, mtime: 1}) }
@@ -188,3 +189,5 @@ func model_lchtimes(i unpackinfo.UnpackInfo) error {
 }
 
 func envTime(sec int64) time.Time { return time.Unix(sec, 0) }
+
+func envTarResetOutput() { tOut, tOutClosed, tGzClosed, tCopied = nil, false, false, 0 }
